@@ -310,6 +310,46 @@ func (s *State) Clone() *State {
 	return n
 }
 
+// JoinSnapshots: the state in which a goroutine started by one `go` statement is analysed when that statement is
+// reached on several paths of its parent: what all paths agree on is kept, a cell whose content differs between them
+// (a parameter clamped on one path only, a channel made on one path only) is unknown. nil when snaps is empty.
+func JoinSnapshots(snaps []*State) *State {
+	var base *State
+	for _, sn := range snaps {
+		if sn != nil {
+			base = sn
+			break
+		}
+	}
+	if base == nil {
+		return nil
+	}
+	j := base.Clone()
+	for _, sn := range snaps {
+		if sn == nil || sn == base {
+			continue
+		}
+		keys := map[string]bool{}
+		for k := range j.mem {
+			keys[k] = true
+		}
+		for k := range sn.mem {
+			keys[k] = true
+		}
+		for k := range keys {
+			a, b := j.mem[k], sn.mem[k]
+			switch {
+			case a != nil && b != nil && a.val != nil && b.val != nil && a.val.Key() == b.val.Key():
+			case a != nil:
+				j.havoc(a.addr, "spawn-join")
+			case b != nil:
+				j.havoc(b.addr, "spawn-join")
+			}
+		}
+	}
+	return j
+}
+
 // EachMem visits every known memory cell (address term, content term).
 func (s *State) EachMem(f func(addr, val *Term)) {
 	if s == nil {
@@ -836,7 +876,7 @@ var assertHelperCache sync.Map
 // `func invariant(ok bool, msg string) { if !ok { panic(msg) } }` and its like: no store, send, go, defer, no call
 // except to format the message.
 func isAssertionHelper(fn *ssa.Function) bool {
-	if fn == nil || fn.Signature.Results().Len() != 0 || len(fn.Blocks) == 0 || len(fn.Blocks) > 6 {
+	if fn == nil || fn.Signature.Results().Len() != 0 || len(fn.Blocks) == 0 || len(fn.Blocks) > 20 {
 		return false
 	}
 	if v, hit := assertHelperCache.Load(fn); hit {
@@ -858,6 +898,9 @@ func isAssertionHelper(fn *ssa.Function) bool {
 				case *ssa.Store, *ssa.Send, *ssa.Go, *ssa.Defer, *ssa.MapUpdate, *ssa.Select, *ssa.RunDefers:
 					return false
 				case *ssa.Call:
+					if bi, isB := in.Call.Value.(*ssa.Builtin); isB && (bi.Name() == "len" || bi.Name() == "cap") {
+						continue
+					}
 					callee := in.Call.StaticCallee()
 					if callee == nil || callee.Pkg == nil {
 						return false
@@ -870,7 +913,9 @@ func isAssertionHelper(fn *ssa.Function) bool {
 				}
 			}
 		}
-		return nPanic == 1 && nIf >= 1 && nInstr <= 24
+		// one guarded panic, or a validation helper checking several conditions (one panic each, possibly in a loop
+		// over its arguments): nothing but tests, message formatting and panics
+		return nPanic >= 1 && nIf >= 1 && (nPanic == 1 && nInstr <= 24 || nPanic > 1 && nInstr <= 40*nPanic && nInstr <= 160)
 	}()
 	assertHelperCache.Store(fn, res)
 	return res
@@ -1780,6 +1825,15 @@ func (ex *explorer) run(st *State, blk *ssa.BasicBlock, idx int, prev *ssa.Basic
 				ex.budget--
 				return
 			}
+			if len(st.frames) == 1 && rootNilArgument(st) {
+				// argument validation written inline in the analysed function itself: `if f == nil { panic(...) }` on a
+				// parameter (or the receiver) of function, interface, pointer, channel, map or slice type. Like the
+				// assertion helpers it is an assumption of the analysis - the properties speak about non-nil arguments -
+				// and the site is recorded
+				ex.an.noteAssumed(in)
+				ex.budget--
+				return
+			}
 			ex.emit(st, Step{Kind: KPanic, Instr: in, A: []*Term{ex.eval(st, in.X)}})
 			ex.budget--
 			ex.finish(st, &Path{Exit: ExitPanic})
@@ -2346,6 +2400,13 @@ func (ex *explorer) doCall(st *State, in ssa.Instruction, c *ssa.CallCommon, val
 			}
 		}
 	}
+	// a validation helper that loops over its arguments (`nonNil(n, a == nil, b == nil, ...)`): it either panics or
+	// returns, and touches nothing; like the single-condition assertion helper it is taken as never firing
+	if fn != nil && isAssertionHelper(fn) && HasLoop(fn) && !ex.canInlineAt(st, fn, site) {
+		ex.an.noteAssumed(in)
+		bind(&Term{Op: "tuple"})
+		return false
+	}
 	if fn != nil && ex.canInlineAt(st, fn, site) {
 		inst := c.StaticCallee()
 		if devirt != nil {
@@ -2724,4 +2785,29 @@ func concreteInIface(v ssa.Value) bool {
 func isNilConst(v ssa.Value) bool {
 	k, ok := v.(*ssa.Const)
 	return ok && k.IsNil()
+}
+
+
+// rootNilArgument: the path condition of st contains the fact that a parameter of the root function is nil.
+func rootNilArgument(st *State) bool {
+	f := st.frames[0]
+	for _, p := range f.fn.Params {
+		switch p.Type().Underlying().(type) {
+		case *types.Signature, *types.Interface, *types.Pointer, *types.Chan, *types.Map, *types.Slice:
+		default:
+			continue
+		}
+		t := f.env[p]
+		if t == nil || t.Op != "param" {
+			continue
+		}
+		atom, pol := Atom(mkBin("==", t, Nil))
+		if atom.IsConst() {
+			continue
+		}
+		if v, ok := st.facts[atom.Key()]; ok && v == pol {
+			return true
+		}
+	}
+	return false
 }
